@@ -465,6 +465,19 @@ def np_insert(arr, obj, values):
     return Arr(alg.add(a.n, nv), kind, lambda i: _pick(alg.lt(i, nv), M._cast_pair(gv(i), kind), ga(alg.sub(i, nv))))
 
 
+def np_concatenate(arrays, axis=0, **k):
+    """np.concatenate of two 1-D plain arrays of the same kind (the np.insert(arr, 0, values) spelling)"""
+    if k or raw(axis) != 0 or not isinstance(arrays, (list, tuple)) or len(arrays) != 2:
+        raise Unsupported("np.concatenate pattern")
+    if any(isinstance(a, MArr) for a in arrays):
+        raise Unsupported("np.concatenate of masked arrays")
+    a, b = (M._as_arr(x, copy=False) for x in arrays)
+    if a.kind != b.kind:
+        raise Unsupported("np.concatenate of kinds %s and %s" % (a.kind, b.kind))
+    ga, gb, na = a.getter(), b.getter(), a.n
+    return Arr(alg.add(na, b.n), a.kind, lambda i: _pick(alg.lt(i, na), ga(i), gb(alg.sub(i, na))), a.unit)
+
+
 def _pick(c, a, b):
     return (alg.ite(c, a[0], b[0]), alg.ite(c, a[1], b[1]))
 
@@ -853,6 +866,7 @@ def build_np():
     np.isnan = np_isnan
     np.isfinite = np_isfinite
     np.minimum = np_minimum
+    np.concatenate = np_concatenate
     np.maximum = _ufunc2("maximum")
     np.logical_not = np_logical_not
     np.invert = np_logical_not
